@@ -103,8 +103,12 @@ class C10(Prop):
 
     def oracle(self, tier, ctx):
         rng = core.Rng('C10-oracle')
-        cases = self.cases(tier, rng)
-        lines = ['ENC %s %d 10' % c for c in cases]
+        cases0 = self.cases(tier, rng)
+        # every case with room to spare and with a buffer of exactly the length of the head (nothing may be required beyond the bytes written)
+        cases = []; lines = []
+        for fn, v in cases0:
+            cases.append((fn, v)); lines.append('ENC %s %d 10' % (fn, v))
+            cases.append((fn, v)); lines.append('ENC %s %d %d' % (fn, v, len(ref_bytes(fn, v))))
         enc, rc, err = ctx.run_c(lines)
         if rc != 0:
             i, l, e = core.first_crash_line(ctx.harness, lines)
